@@ -72,6 +72,41 @@ Proof.
   rewrite make_trait_fn_sig_name. apply Hr.
 Qed.
 
+(** the target trait's method signatures, the async rewrite of generated traits included *)
+Lemma contains_async_filter l : contains_async_trait (filter is_async_trait l) = contains_async_trait l.
+Proof.
+  unfold contains_async_trait. induction l as [|x l IH]; [reflexivity|]. cbn [filter existsb].
+  destruct (is_async_trait x) eqn:E; cbn [existsb]; rewrite ?E, IH; reflexivity.
+Qed.
+
+Lemma static_target_sig_full subs o s :
+  print_sig (make_trait_fn_sig (static_impl_receiver s) subs o)
+  = c07_target_sig_full false (contains_async_trait subs) (future_send o) s.
+Proof.
+  unfold make_trait_fn_sig, static_impl_receiver, c07_target_sig_full, c07_target_sig.
+  destruct (p_items (s_inputs s)) as [|[x r m c|x p ty] rest]; cbn [s_async];
+    destruct (s_async s && negb (contains_async_trait subs)); reflexivity.
+Qed.
+
+Lemma dynamic_target_sig_full subs o s :
+  print_sig (make_trait_fn_sig (dynamic_impl_receiver s) subs o)
+  = c07_target_sig_full true (contains_async_trait subs) (future_send o) s.
+Proof.
+  unfold make_trait_fn_sig, dynamic_impl_receiver, c07_target_sig_full, c07_target_sig, first_is_receiver.
+  destruct (p_items (s_inputs s)) as [|[x r m c|x p ty] rest]; cbn [s_async];
+    destruct (s_async s && negb (contains_async_trait subs)); reflexivity.
+Qed.
+
+Lemma target_sigs_full (recv : sig -> sig) dyn attrs o src :
+  (forall subs o s, print_sig (make_trait_fn_sig (recv s) subs o) = c07_target_sig_full dyn (contains_async_trait subs) (future_send o) s) ->
+  map (fun '(_, s) => print_sig s)
+      (map (fun x : list attr * sig => (fst x, make_trait_fn_sig (recv (snd x)) (filter is_async_trait attrs) (no_mock_opts o))) src)
+  = map (fun '(_, s) => c07_target_sig_full dyn (contains_async_trait attrs) (future_send o) s) src.
+Proof.
+  intros Hr. rewrite map_map. apply map_ext. intros [a s]. cbn [fst snd].
+  rewrite Hr, contains_async_filter. reflexivity.
+Qed.
+
 Lemma c07_trait_view v attr h t items :
   expand_items v attr (InTrait h t) = Ok items -> good (view_C07 (mkCtx v attr (InTrait h t)) items).
 Proof.
@@ -84,8 +119,10 @@ Proof.
   rewrite N1, String.eqb_refl. unfold first_param_toks. rewrite N2, N3, N4, N5. cbn [andb].
   destruct Hsel as [(del & Hdel & -> & ->)|(r & Hdel & -> & ->)]; cbn [ta_delegate eff_trait_attr] in *; rewrite Hdel.
   - rewrite (target_names _ _ _ _ static_receiver_name), str_list_eqb_refl.
+    rewrite (target_sigs_full _ false _ _ _ static_target_sig_full), toks_list_eqb_refl.
     cbn [selector_trait t_name t_items flat_map print_titem app]. rewrite String.eqb_refl, !toks_eqb_refl. reflexivity.
-  - rewrite (target_names _ _ _ _ dynamic_receiver_name), str_list_eqb_refl. reflexivity.
+  - rewrite (target_names _ _ _ _ dynamic_receiver_name), str_list_eqb_refl.
+    rewrite (target_sigs_full _ true _ _ _ dynamic_target_sig_full), toks_list_eqb_refl. reflexivity.
 Qed.
 
 (** ** impl side: [#[entrait] impl Trait for Type] *)
